@@ -320,7 +320,7 @@ class PymbolicToASTMapper(CachedMapper):
                 expr = expr.item()
 
         if isinstance(expr, bool):
-            return ast.NameConstant(expr)
+            return ast.Constant(expr, None)
         elif isinstance(expr, (int, float)) and (
                 expr < 0 or (expr == 0 and str(expr).startswith("-"))):
             # Python's own ASTs have no negative constants: ast.unparse
